@@ -19,6 +19,7 @@ func (x *Exec) initialState(fn *ssa.Function) (*State, []Value) {
 	x.inputs = nil
 	for i, p := range fn.Params {
 		v := x.FreshValue("in$"+p.Name(), p.Type())
+		x.zeroSliceOffsets(&v)
 		x.assume(st, x.wf(v, alloc0))
 		x.assume(st, x.nonNegRefs(v))
 		if i == 0 && fn.Signature.Recv() != nil {
@@ -115,6 +116,7 @@ func (x *Exec) VerifyFunc(fn *ssa.Function, ct *Contract) (err error) {
 			return fmt.Errorf("contract %s: unknown ghost type for %s", ct.Func, g.Name)
 		}
 		gv := x.FreshValue("ghost$"+g.Name, t)
+		x.zeroSliceOffsets(&gv)
 		x.assume(st, x.wf(gv, st.Alloc))
 		x.assume(st, x.nonNegRefs(gv))
 		x.ghost[g.Name] = gv
@@ -548,4 +550,19 @@ func (x *Exec) applyOpaque(st *State, fn *ssa.Function, ct *Contract, args []Val
 	f := c.DeclareFun(name, sorts, rl.Leaves[0].Sort)
 	x.attachAxiomsTo(ct, name)
 	return Value{T: resT, L: []*Term{c.App(f, flat...)}}
+}
+
+// zeroSliceOffsets models a slice-typed parameter as starting at index 0 of its own
+// backing array. Quantified contracts over its elements then index with the bound
+// variable alone, which E-matching handles; with a symbolic offset the index terms are
+// sums that the solvers normalise and no longer match. Assumption (reported): slice
+// parameters of a verified function do not partially overlap each other in memory.
+func (x *Exec) zeroSliceOffsets(v *Value) {
+	lay := LayoutOf(v.T)
+	for k, lf := range lay.Leaves {
+		if lf.Role == "off" {
+			v.L[k] = x.zeroLeaf(lf.Sort)
+			x.Notes.Assumed["slice parameters of verified functions start at offset 0 of their own backing array (no partially overlapping slice arguments)"] = true
+		}
+	}
 }
